@@ -58,7 +58,7 @@ def cfg(tier):
 
 
 def budget(tier):
-    return 2000 if tier == "quick" else 40000
+    return 4000 if tier == "quick" else 40000
 
 
 def strategy(tier):
